@@ -9,6 +9,7 @@ every list of chunks whose concatenation is `encodeAll ms ++ p` (= every way of 
 between reads, down to one byte — or zero bytes — per read).
 -/
 import SwimVerif.Proofs.FrameCommand
+import SwimVerif.Proofs.FrameDiscard
 
 set_option linter.unusedSimpArgs false
 namespace SwimVerif.Frames
@@ -221,6 +222,32 @@ theorem C10_command_register_split_regression :
       = [.register ⟨none, [110], [108]⟩ 7] := by
   decide
 
+/-! ### the length-delimited Recon body decoder resynchronises (typed codecs) -/
+
+/-- **`WithLenRecognizerDecoder` never loses the frame boundary**: whatever the inner Recon decoder answers on the
+slices it is shown (any sequence of "nothing yet" / value / error, any consumption), for every body length, every
+body, everything that follows (`tail`) and EVERY chunking of `len ++ body ++ tail`: when the frame's outcome (a
+value or an error) is reported, the buffer followed by the unread chunks is exactly `tail` — not a byte of the next
+frame has been eaten, not a byte of the failed body is left (model: `Model/FrameDiscard.lean`; the discard
+arithmetic of the source is pinned by `C10_discard_arms`, the behaviour of the real decoders under body corruption
+is checked by the `typed-resync` engine). -/
+theorem C10_with_len_recognizer_resyncs {β : Type} (o : Discard.Oracle β) (n : Nat) (body tail : List Nat)
+    (hn : n < M64) (hb : body.length = n) (chunks : List (List Nat))
+    (hc : chunks.flatten = be 8 n ++ (body ++ tail)) (out : Out β) (buf : List Nat) (rest : List (List Nat))
+    (h : Discard.drive o ⟨.header, 0, []⟩ chunks = some (out, buf, rest)) :
+    buf ++ rest.flatten = tail :=
+  Discard.drive_ok o chunks ⟨.header, 0, []⟩ tail ⟨n, body, hn, hb, by simpa using hc⟩ out buf rest h
+
+/-- …and a failed body IS reported as one error once its announced bytes have arrived (no hang in `Discarding`). -/
+theorem C10_with_len_recognizer_discard_reports_error {β : Type} (o : Discard.Oracle β) (calls r : Nat)
+    (buf : List Nat) (chunks : List (List Nat)) (hne : chunks ≠ []) (hlen : r ≤ (buf ++ chunks.flatten).length) :
+    ∃ b rest, Discard.drive o ⟨.discarding r, calls, buf⟩ chunks = some (.err, b, rest) :=
+  Discard.discard_reports o chunks calls r buf hne hlen
+
+/-- The source still computes what the model computes when it starts discarding (`*remaining - rem`). -/
+theorem C10_discard_arms : wlrDiscardArms = ["*remaining - rem"] ∧ dlNotDiscardArms = ["*remaining - rem"] := by
+  decide
+
 /-! ### side conditions on the generated table (re-checked against the sources on every run) -/
 
 /-- Tags that share a decoder are pairwise distinct. -/
@@ -276,6 +303,11 @@ example : (run (Dec.ofParser rawResponse)
     = [⟨be 16 7, [110], [108], .event [5]⟩] := by decide
 
 example : okBytes [1, 2, 3] := by simp [okBytes]
+
+/-- an inner decoder that fails on its first call having consumed one byte, body of 5 bytes cut after 2: the error
+comes out with the second read and the buffer is exactly the next frame's first byte -/
+example : Discard.drive (β := Nat) (fun _ _ _ => (1, .err)) ⟨.header, 0, []⟩
+      [[0, 0, 0, 0, 0, 0, 0, 5, 65, 66], [67, 68, 69, 4]] = some (.err, [4], []) := by decide
 
 example : okCmd (.register ⟨some [104], [110], [108]⟩ 7) :=
   ⟨⟨by decide, by decide, by decide, by decide, by intro h e; cases e; exact ⟨by decide, by decide⟩⟩, by decide⟩
